@@ -1499,7 +1499,15 @@ class Exec(object):
                 self.safety(st, node, z3.Not(v.isnone), "TypeError", "arg_%s_notnone" % n)
                 bound[n] = v.val
             elif isinstance(ty, sym.TDict) and isinstance(v, dict) and len(v) > 0:
-                bound[n] = sym.dict_from_concrete(v, ty.vt)
+                # a dict constant of the package: small ones exactly, large ones as an opaque dict with sound facts
+                if len(v) <= 4:
+                    bound[n] = sym.dict_from_concrete(v, ty.vt)
+                else:
+                    bound[n], facts = sym.dict_abstract(v, ty.vt)
+                    for f_ in facts:
+                        st.assume(f_)
+                    self.trusted.add("large dict constants are abstracted to opaque dicts (content-independent proof; "
+                                     "only the value sets of their string components are used)")
             elif isinstance(ty, sym.TDict) and isinstance(v, (list, dict)) and len(v) == 0:
                 bound[n] = sym.VDict(STR, ty.vt, lambda k_: VBool(z3.BoolVal(False)),
                                      lambda k_, _t=ty.vt: fresh(_t, "empty_dict_val"))
